@@ -44,6 +44,23 @@ Theorem cors_decision :
           mkWire (w_status w) (if cc_with_cors cfg then set_header H_ACAO o (w_headers w) else w_headers w) (w_body w) (w_log w))).
 Proof. exact decision_proof. Qed.
 
+(** the same after every history of requests (same-origin, allowed, refused, unsanitary; at any times)
+    and cache clears, starting from the empty cache *)
+Theorem cors_decision_histories :
+  forall (parse : bytes -> option uparts) (conn_scheme : bytes) (cfg : ccfg) (ops : list (cop * N)) (t0 now : N) (r0 : request) (a o : bytes),
+    mem_byte c_colon conn_scheme = false -> handlers_external cfg ->
+    header H_HOST r0 = Some a -> header H_ORIGIN r0 = Some o -> sanitize_ok_fix r0 = true -> stable cfg r0 ->
+    let st := run_conn_state parse is_part_of_origin conn_scheme cfg ([], tt) t0 ops in
+    (req_verdict parse conn_scheme cfg r0 = VRefuse ->
+       respond parse is_part_of_origin conn_scheme cfg st now r0
+       = (st, mkWire 403 [] (if rq_method r0 =? M_HEAD then [] else DENIED) []))
+    /\ (req_verdict parse conn_scheme cfg r0 <> VRefuse -> pf_shape r0 = false ->
+       respond parse is_part_of_origin conn_scheme cfg st now r0
+       = (fst (respond parse is_part_of_origin conn_scheme cfg st now (strip_origin r0)),
+          let w := snd (respond parse is_part_of_origin conn_scheme cfg st now (strip_origin r0)) in
+          mkWire (w_status w) (if cc_with_cors cfg then set_header H_ACAO o (w_headers w) else w_headers w) (w_body w) (w_log w))).
+Proof. exact decision_histories_proof. Qed.
+
 (** a preflight that is not refused: 204 with exactly the rule's methods ("*" = all), headers and
     max-age (sub-second part rounded up), no handler, cache untouched — in every cache state *)
 Theorem preflight_eq :
